@@ -98,6 +98,8 @@ pub struct RunOut {
     pub out_file: Option<Vec<u8>>,
     pub stats: Option<IoStats>,
     pub events: Option<SimEvents>,
+    /// served by the long-lived server process (fast path) rather than by a fresh process
+    pub via_server: bool,
 }
 
 pub struct Paths {
@@ -120,9 +122,99 @@ impl Paths {
     }
 }
 
+/// A long-lived simulated-CLI process that serves runs one after the other (`SIM_SERVER=1`).
+/// Fast path only: whatever looks anomalous is re-run in a fresh one-shot process by the caller.
+pub struct Server {
+    child: std::process::Child,
+    stdin: std::process::ChildStdin,
+    stdout: std::io::BufReader<std::process::ChildStdout>,
+    served: u64,
+}
+
+fn esc(s: &str) -> String {
+    s.replace('\\', "\\\\").replace('"', "\\\"")
+}
+
+impl Server {
+    fn start(wd_dir: &Path, paths: &Paths) -> Option<Server> {
+        let p = |n: &str| wd_dir.join(n).to_string_lossy().to_string();
+        let mut child = Command::new(&paths.sim_bin)
+            .env_clear()
+            .env("XDG_CONFIG_HOME", p("xdg"))
+            .env("HOME", p(""))
+            .env("LD_PRELOAD", &paths.envso)
+            .env("SIM_SERVER", "1")
+            .env("RUST_BACKTRACE", "1")
+            .stdin(Stdio::piped())
+            .stdout(Stdio::piped())
+            .stderr(Stdio::null())
+            .spawn()
+            .ok()?;
+        let stdin = child.stdin.take()?;
+        let stdout = std::io::BufReader::new(child.stdout.take()?);
+        Some(Server { child, stdin, stdout, served: 0 })
+    }
+
+    /// `None` = the server died or answered garbage (e.g. the run called `exit` or overflowed its stack).
+    fn request(&mut self, wd: &WorkDir, argv: &[String], env: &Env) -> Option<(i32, Option<SimEvents>, Option<IoStats>)> {
+        use std::io::{BufRead, Write};
+        let line = format!(
+            "{{\"argv\":[{}],\"entropy\":\"{}\",\"sched\":\"{}\",\"io\":\"{}\",\"stdout\":\"{}\",\"stderr\":\"{}\"}}\n",
+            argv.iter().map(|a| format!("\"{}\"", esc(a))).collect::<Vec<_>>().join(","),
+            env.entropy,
+            esc(&env.sched),
+            esc(&env.io),
+            esc(&wd.p("stdout.txt")),
+            esc(&wd.p("stderr.txt"))
+        );
+        self.stdin.write_all(line.as_bytes()).ok()?;
+        self.stdin.flush().ok()?;
+        // real-time tripwire: a run that never answers takes the server down with it
+        {
+            use std::os::fd::AsRawFd;
+            #[repr(C)]
+            struct PollFd {
+                fd: i32,
+                events: i16,
+                revents: i16,
+            }
+            extern "C" {
+                fn poll(fds: *mut PollFd, nfds: u64, timeout: i32) -> i32;
+            }
+            let mut pfd = PollFd { fd: self.stdout.get_ref().as_raw_fd(), events: 1, revents: 0 };
+            let n = unsafe { poll(&mut pfd, 1, TRIPWIRE_MS as i32) };
+            if n <= 0 {
+                return None;
+            }
+        }
+        let mut resp = String::new();
+        if self.stdout.read_line(&mut resp).ok()? == 0 {
+            return None;
+        }
+        self.served += 1;
+        let v: serde_json::Value = serde_json::from_str(&resp).ok()?;
+        Some((
+            v["exit"].as_i64()? as i32,
+            serde_json::from_value(v["events"].clone()).ok(),
+            serde_json::from_value(v["stats"].clone()).ok(),
+        ))
+    }
+}
+
+impl Drop for Server {
+    fn drop(&mut self) {
+        let _ = self.child.kill();
+        let _ = self.child.wait();
+    }
+}
+
 /// Per-worker scratch directory with a private XDG config home holding the shipped configuration.
 pub struct WorkDir {
     pub dir: PathBuf,
+    /// fast path: serve runs from one long-lived process
+    pub server: std::cell::RefCell<Option<Server>>,
+    pub use_server: bool,
+    pub server_fallbacks: std::cell::Cell<u64>,
 }
 
 impl WorkDir {
@@ -132,7 +224,11 @@ impl WorkDir {
         std::fs::create_dir_all(&xdg).unwrap();
         std::fs::copy(&paths.config, xdg.join("config.json")).unwrap();
         std::fs::copy(&paths.lkm_config, xdg.join("lkm_config.json")).unwrap();
-        WorkDir { dir }
+        WorkDir { dir, server: std::cell::RefCell::new(None), use_server: false, server_fallbacks: std::cell::Cell::new(0) }
+    }
+    pub fn with_server(mut self) -> WorkDir {
+        self.use_server = true;
+        self
     }
     pub fn p(&self, name: &str) -> String {
         self.dir.join(name).to_string_lossy().to_string()
@@ -155,6 +251,35 @@ pub fn run_cli(wd: &WorkDir, paths: &Paths, mode: &CliMode, env: &Env, lkm: bool
 pub fn run_raw(wd: &WorkDir, paths: &Paths, argv: &[String], env: &Env) -> RunOut {
     for f in ["stdout.txt", "stderr.txt", "out.txt", "stats.json", "events.json"] {
         let _ = std::fs::remove_file(wd.p(f));
+    }
+    if wd.use_server {
+        let mut slot = wd.server.borrow_mut();
+        // a fresh server every 1000 runs bounds whatever a long-lived process may accumulate
+        if slot.as_ref().map_or(true, |s| s.served >= 1000) {
+            *slot = Server::start(&wd.dir, paths);
+        }
+        if let Some(server) = slot.as_mut() {
+            match server.request(wd, argv, env) {
+                Some((exit, events, stats)) => {
+                    let read = |f: &str| std::fs::read(wd.p(f)).ok();
+                    return RunOut {
+                        exit: Some(exit),
+                        timed_out: false,
+                        stdout: read("stdout.txt").unwrap_or_default(),
+                        stderr: String::from_utf8_lossy(&read("stderr.txt").unwrap_or_default()).to_string(),
+                        out_file: read("out.txt"),
+                        stats,
+                        events,
+                        via_server: true,
+                    };
+                }
+                None => {
+                    // the run took the server down: judge it from a one-shot process instead
+                    *slot = None;
+                    wd.server_fallbacks.set(wd.server_fallbacks.get() + 1);
+                }
+            }
+        }
     }
     let stdout = std::fs::File::create(wd.p("stdout.txt")).unwrap();
     let stderr = std::fs::File::create(wd.p("stderr.txt")).unwrap();
@@ -199,5 +324,6 @@ pub fn run_raw(wd: &WorkDir, paths: &Paths, argv: &[String], env: &Env) -> RunOu
         out_file: read("out.txt"),
         stats: read("stats.json").and_then(|b| serde_json::from_slice(&b).ok()),
         events: read("events.json").and_then(|b| serde_json::from_slice(&b).ok()),
+        via_server: false,
     }
 }
